@@ -6,6 +6,7 @@ CONSTANT RootClasses = {"PVLModule", "PVLGroup", "PVLObject", "OrderedMultiDict"
 CONSTANT MechSet = {"copy_method", "copy_copy", "deepcopy", "pickle0", "pickle1", "pickle2", "pickle3", "pickle4", "pickle5"}
 CONSTANT Emit = FALSE
 CONSTANT AtomVals = {"x"}
+CONSTANT ChildClasses = {"PVLGroup", "PVLObject"}
 CONSTANT MutNames = {"append", "setitem", "delitem", "pop", "insert", "clear"}
 INVARIANT CopyEqual
 INVARIANT OrigIntact
